@@ -184,6 +184,11 @@ func (g *gRun) apply(name string, f gOp) error {
 	g.out.Count("op." + name)
 	if err != nil {
 		g.out.Count("err." + name)
+		es := err.Error()
+		if i := strings.LastIndex(es, ": "); i >= 0 && len(es)-i < 70 {
+			es = es[i+2:]
+		}
+		g.out.Count("errtext." + name + "." + trunc(es, 70))
 	}
 	return err
 }
@@ -995,7 +1000,8 @@ func (g *gRun) exportPoint() {
 		g.out.Impl("%s", l)
 	}
 	o.New.beginNext()
-	if len(o.PanicMod) == 0 {
+	// the restarted chain continues the history, unless it already differs from the original at the export point
+	if len(o.PanicMod) == 0 && len(o.Diff) == 0 {
 		g.forks = append(g.forks, &gFork{e: o.New, point: point})
 	}
 }
@@ -1095,14 +1101,23 @@ func runGenesis(seed uint64, n int, out *Out) {
 		for i := 0; i < nOps && !g.halted; i++ {
 			x := r.Intn(100)
 			var m *coreMarket
-			if len(g.markets) > 0 {
-				m = g.markets[r.Intn(len(g.markets))]
-				for t := 0; t < 3 && m.resolved; t++ {
-					m = g.markets[r.Intn(len(g.markets))]
+			var live []*coreMarket
+			for _, mm := range g.markets {
+				if !mm.resolved {
+					live = append(live, mm)
 				}
 			}
+			if len(live) > 0 {
+				m = live[r.Intn(len(live))]
+			}
+			if m != nil && len(g.markets) > 1 && r.Chance(4) {
+				m = g.markets[r.Intn(len(g.markets))] // rarely: an operation on a resolved market
+			}
+			if len(g.subOwners) == 0 && x >= 84 && x < 94 {
+				x = 83 // the first subaccount operation creates one
+			}
 			switch {
-			case m == nil || (x < 6 && len(g.markets) < 4):
+			case m == nil || (x < 6 && len(g.markets) < 6):
 				g.marketAdd(2 + r.Intn(2))
 			case x < 26:
 				creator := 1 + r.Intn(5)
@@ -1132,7 +1147,7 @@ func runGenesis(seed uint64, n int, out *Out) {
 				mode := int(r.Pick([]int64{1, 2, 2}))
 				amount := r.Pick([]int64{1, 5, 10, 45, 90, 100})
 				if pd != 0 && pd != creator && r.Chance(90) {
-					g.grant(pd, creator, 1, 100000)
+					g.grant(pd, creator, 1, 100)
 				}
 				g.withdraw(m, creator, pd, p.Index, mode, amount)
 			case x < 62:
